@@ -15,7 +15,7 @@ import subprocess
 import sys
 
 from harness.common.framework import CorrResult, COQ, VERIF
-from harness.translate import c09_registry, c09_values
+from harness.translate import c09_purity, c09_registry, c09_values
 
 PROP_ID = "C09"
 COQ_PROPS = "theories/Props/C09.v"
@@ -47,6 +47,12 @@ TRUSTED = [
     "byte-payload serializers (TextureEntry, ExtraParams, NameValue, ObjectUpdateCompressed data, particle systems, transfer "
     "params, IM buckets, bitmaps, ...)",
     "the integer theorems are about integers as Python ints; packing them into the variable's bytes is C01/C02's subject",
+    "the Coq model treats decode / encode as functions of (serializer, context values, wire value); that the implementation's "
+    "decode really is one (no result shared between calls, no dependence on what earlier callers did to earlier results) is NOT "
+    "proved: it is decided per run by the purity / no-aliasing probe of the impl-level oracle (all registered keys x context "
+    "values x both forms, sampled payloads); aliasing that only shows after more than 1024 other decodes, or only for payloads "
+    "outside the probed sample, is not excluded; Block.serialize_var keeps the caller's own object in the Block cache (editing "
+    "it afterwards changes what deserialize_var returns without changing the raw bytes) - observed, outside this probe",
 ]
 
 MAX_REPORT = 3          # violations reported per (key, class)
@@ -298,6 +304,71 @@ def check_block_api(key, ser, ctxvars, z, z_other):
     return None
 
 
+def _fresh(raw):
+    """an equal value held in a different object (byte-identical data, not the same bytes object)"""
+    if isinstance(raw, (bytes, bytearray)):
+        return bytes(bytearray(raw))
+    return raw
+
+
+PURITY_STATS = {}
+
+
+def check_purity(ser, raw, pod, key=None, ctxvars=None, block=None, full=False):
+    """purity / no-aliasing probe (harness/translate/c09_purity.py) of one serializer on one wire value (payload
+    bytes or integer) in one form.  With a registered key the same bytes are also decoded through a fresh Block
+    holding byte-identical data and (object form) through Block.deserialize_var: on a fresh Block, and twice on one
+    Block with the first result edited in between (the Block cache hands out copies by default; make_copy=False is a
+    documented opt-out and is not probed).  -> (status, None | (class, clause, detail))"""
+    se = _se()
+    ctxvars = ctxvars or {}
+    if block is None:
+        block = make_block(key, ctxvars)
+
+    def dec():
+        return _force(ser.deserialize(block, raw, pod=pod))
+
+    def enc(v):
+        r = ser.serialize(block, v)
+        return bytes(r) if isinstance(r, (bytes, bytearray)) else r
+
+    fresh = []
+    if key is not None:
+        var = key[2]
+
+        def fresh_block():
+            b = make_block(key, ctxvars, var, _fresh(raw))
+            return _force(ser.deserialize(b, b[var], pod=pod))
+        fresh.append(("fresh Block holding byte-identical data", fresh_block))
+        if not pod:
+            def fresh_block_api():
+                return _force(make_block(key, ctxvars, var, _fresh(raw)).deserialize_var(var))
+
+            def cached_block_api():
+                b = make_block(key, ctxvars, var, _fresh(raw))
+                c09_purity.mutate(_force(b.deserialize_var(var)))      # first read fills the cache; edit what it returned
+                return _force(b.deserialize_var(var))                  # second read is served from the cache
+            fresh.append(("Block.deserialize_var on a fresh Block", fresh_block_api))
+            fresh.append(("Block.deserialize_var again on one Block after its first result was edited", cached_block_api))
+    st, info = c09_purity.probe(dec, enc, c09_values.canon, tuple(fresh), full=full,
+                                unaccepted=lambda x: x is se.UNSERIALIZABLE)
+    PURITY_STATS[st] = PURITY_STATS.get(st, 0) + 1
+    if st == "skip":
+        k = "skip: " + str(info).split(":")[0]
+        PURITY_STATS[k] = PURITY_STATS.get(k, 0) + 1
+    return st, (info if st == "bad" else None)
+
+
+def purity_case(bad, keytxt, ctxvars, pod, raw, **more):
+    case = {"kind": "purity", "class": bad[0], "clause": bad[1], "detail": bad[2], "key": keytxt, "ctx": ctxvars, "pod": pod}
+    if isinstance(raw, (bytes, bytearray)):
+        case["payload"] = bytes(raw).hex()
+    else:
+        case["z"] = raw
+    case.update(more)
+    return case
+
+
 # =====================================================================================
 # integer cases
 
@@ -440,7 +511,10 @@ def corr_ints(ctx, reg):
                           "unknown name encoded directly; synthetic classes (aliases, zero / multi-bit / negative members, "
                           "strict enums, bool / nibble / identity adapters, context switches, bit fields in both shift "
                           "modes) on -260..519 + wide integers and hand-written plain-data values; opaque integer keys "
-                          "(TimeDilation: all 65 536 raws) go through the integer clause only; non-trivial = distinct "
+                          "(TimeDilation: all 65 536 raws) go through the integer clause only; purity / no-aliasing probe on "
+                          "the Block-API subset and on every 13th synthetic integer, both forms (see the byte-payload suite's "
+                          "rule; results nobody can edit in place - ints, names, tuples of names, enum members - are exempt); "
+                          "non-trivial = distinct "
                           "(serializer, context, form, integer) whose decoded form is not the bare integer")
     lines, expect, meta = [], [], []
     counts = {}
@@ -503,6 +577,15 @@ def corr_ints(ctx, reg):
                     _report(res, counts, {"kind": "int-block", "class": "block-cache", "clause": bad[0], "got": bad[1],
                                           "key": keytxt, "ctx": ctxvars, "pod": False, "z": zs[i],
                                           "z_before": zs[(i * 7 + 3) % len(zs)]})
+            # purity / no-aliasing probe on the same subset (only decoded values a caller can edit in place matter:
+            # bit-field dicts and dataclasses; names, tuples of names, enum members are exempt)
+            for pod in (False, True):
+                for i in range(0, len(zs), step):
+                    impl_only += 1
+                    st, bad = check_purity(ser, zs[i], pod, key=e.key, ctxvars=ctxvars)
+                    bump("purity probe: " + st)
+                    if st == "bad":
+                        _report(res, counts, purity_case(bad, keytxt, ctxvars, pod, zs[i]))
         # encode every member name (and an unknown one) directly
         if e.kind in ("enum", "flag"):
             block = make_block(e.key, {})
@@ -529,6 +612,14 @@ def corr_ints(ctx, reg):
                     meta.append(("synthetic:" + s["spec"][:60], {"K": cv}, pod, z))
                     if not t.startswith("i:"):
                         nontriv += 1
+            for pod in (False, True):
+                for z in SYN_Z[::13]:
+                    impl_only += 1
+                    st, bad = check_purity(s["ser"], z, pod, block=block)
+                    bump("purity probe: " + st)
+                    if st == "bad":
+                        _report(res, counts, purity_case(bad, "synthetic:" + s["spec"][:60], {"K": cv}, pod, z,
+                                                         kind="purity-synthetic", spec=s["spec"]))
             for vt, pv in s["values"]:
                 lines.append("s %s %d %s" % (s["spec"], cv, vt))
                 try:
@@ -728,17 +819,31 @@ def corr_bytes(ctx, reg):
                           "zero byte strings (if accepted: one decode-encode pass must reach a fixed point that decodes to the same "
                           "value); each in object and plain-data form; plain-data values must consist of literals only and, "
                           "when they hold no inf/nan, repr() must evaluate back (ast.literal_eval) to an equal value that "
-                          "serializes to the same bytes; no model involved; non-trivial = accepted payloads")
+                          "serializes to the same bytes; purity / no-aliasing probe (decoding must be a function of serializer, "
+                          "context values and payload bytes, otherwise the clauses above depend on what the process did before): "
+                          "on every generated payload and the first few accepted payloads of each other origin per context value, "
+                          "in both forms: decode P, deep snapshot (NaN-stable canonical form, cross-checked against copy.deepcopy), "
+                          "decode P again (equal; no mutable object shared with the first result), edit the first result in place "
+                          "as far as its type allows (dict: delete / overwrite / add keys; list: delete / overwrite / append; "
+                          "dataclass and recordclass instances: setattr on the fields; bytearray / ndarray; nested containers "
+                          "recursively), then decode P again through the same serializer and block, through a fresh Block holding "
+                          "byte-identical data and (object form) through Block.deserialize_var on a fresh Block and twice on one "
+                          "Block with an edit in between: each must equal the snapshot and re-encode exactly as the first pass did; "
+                          "immutable results are exempt, objects of unknown classes (the UNSERIALIZABLE singleton) are never touched, "
+                          "deserialize_var(make_copy=False) is a documented opt-out and not probed; "
+                          "no model involved; non-trivial = accepted payloads")
     n_gen, n_fuzz = ctx.pick(14, 150), ctx.pick(24, 300)
+    n_pure = ctx.pick(3, 30)
     _SWEPT.pop(id(ctx), None)
-    counts, dist = {}, {}
+    counts, dist, pstat = {}, {}, {}
     accepted = evals = 0
     samples = []
     for e in byte_keys(reg):
         keytxt = ".".join(e.key)
         ser = e.serializer
         seen = set()
-        k_acc = k_all = 0
+        k_acc = k_all = k_pure = k_pure_mut = 0
+        pure_left = {}
         try:
             for ctxvars, payload, origin, source in payload_cases(ctx, e, n_gen, n_fuzz):
                 sig = (tuple(sorted(ctxvars.items())), payload)
@@ -746,6 +851,7 @@ def corr_bytes(ctx, reg):
                     continue
                 seen.add(sig)
                 block = make_block(e.key, ctxvars)
+                acc_here = False
                 for pod in (False, True):
                     evals += 1
                     k_all += 1
@@ -754,15 +860,37 @@ def corr_bytes(ctx, reg):
                         continue
                     accepted += 1
                     k_acc += 1
+                    acc_here = True
                     if st == "bad":
                         _report(res, counts, {"kind": "bytes", "class": classify_bytes(keytxt, bad[0], ser, block, payload, source), "clause": bad[0],
                                               "detail": bad[1], "key": keytxt, "ctx": ctxvars, "pod": pod,
                                               "payload": payload.hex(), "origin": origin})
+                # purity / no-aliasing probe, after the clauses above so that it never influences them: every
+                # generated (= own output) payload and the first n_pure accepted payloads of every other origin,
+                # per context value
+                if acc_here:
+                    bk = (sig[0], origin)
+                    left = pure_left.get(bk, n_pure)
+                    if origin == "generated" or left > 0:
+                        pure_left[bk] = left - 1
+                        for pod in (False, True):
+                            evals += 1
+                            k_pure += 1
+                            st, bad = check_purity(ser, payload, pod, key=e.key, ctxvars=ctxvars)
+                            pstat[st] = pstat.get(st, 0) + 1
+                            if st in ("ok", "bad"):
+                                k_pure_mut += 1
+                            if st == "bad":
+                                _report(res, counts, purity_case(bad, keytxt, ctxvars, pod, payload, origin=origin))
                 if origin == "generated" and len(samples) < 6 and len(payload) < 40:
                     samples.append({"key": keytxt, "ctx": ctxvars, "payload": payload.hex()})
         except c09_values.Unsupported as ex:
             ctx.notes.append("value generator does not know spec %s used by %s: fuzz only" % (ex, keytxt))
-        dist[keytxt] = "%d/%d accepted" % (k_acc, k_all)
+        dist[keytxt] = "%d/%d accepted; purity probe %d (%d on editable results)" % (k_acc, k_all, k_pure, k_pure_mut)
+    dist["~ purity probe, all keys"] = ", ".join("%s=%d" % kv for kv in sorted(pstat.items())) or "none"
+    ctx.notes.append("purity / no-aliasing probe (byte-payload keys): " + dist["~ purity probe, all keys"] +
+                     "; skip reasons so far (all suites): " +
+                     ", ".join("%s=%d" % kv for kv in sorted(PURITY_STATS.items()) if kv[0].startswith("skip: ")))
     res.evaluations = evals
     res.distinct_nontrivial = accepted
     res.distribution = dist
@@ -831,6 +959,7 @@ def correspond(ctx):
     if corpus_res:
         out.append(corpus_res)
     POD_VALUES.clear()
+    PURITY_STATS.clear()
     POD_CAP[0] = ctx.pick(4000, 80000)
     out += [corr_ints(ctx, reg), corr_literals(ctx), corr_bytes(ctx, reg), corr_dates(ctx, reg)]
     summary = {}
@@ -861,9 +990,14 @@ def run_corpus(ctx):
             fails, detail = replay(ctx, case)
             if fails:
                 v = dict(case)
-                v.setdefault("clause", "corpus case holds")
-                v["detail"] = str(detail)[:200]
+                if case.get("kind") == "purity" and isinstance(detail, tuple) and len(detail) == 3:
+                    v["class"], v["clause"], v["detail"] = detail[0], detail[1], str(detail[2])[:700]
+                else:
+                    v.setdefault("clause", "corpus case holds")
+                    v["detail"] = str(detail)[:200]
                 res.impl_violations.append(v)
+            elif case.get("kind") == "purity" and detail != "ok":
+                ctx.notes.append("corpus case %s/%s: the purity probe is vacuous here (%s)" % (fn, case.get("key"), detail))
             elif case.get("expect") == "fails":
                 ctx.notes.append("corpus case %s/%s (class %s) no longer fails" % (fn, case.get("key"), case.get("class")))
     return res
@@ -883,6 +1017,12 @@ def replay(ctx, case):
         r = run_dates(ctx, case["tz"], 0, explicit=(case["key"], case["z"]))
         bad = [v for v in r["violations"] if v["pod"] == case.get("pod", v["pod"])]
         return (bool(bad), bad[0] if bad else "holds")
+    if kind == "purity-synthetic":
+        for s in synthetic_suite():
+            if s["spec"] == case.get("spec"):
+                st, bad = check_purity(s["ser"], int(case["z"]), bool(case["pod"]), block=_DictCtx(case.get("ctx") or {}), full=True)
+                return (st == "bad"), (bad or st)
+        return False, "synthetic serializer %r does not exist any more" % case.get("spec")
     e = _entry_by_key(reg, case.get("key", ""))
     if e is None:
         return False, "key %r is not registered any more" % case.get("key")
@@ -904,6 +1044,10 @@ def replay(ctx, case):
         except Exception as ex:
             return False, "value no longer serializes: %s" % type(ex).__name__
         st, bad = check_payload(e.serializer, block, payload, bool(case["pod"]), produced=True)
+        return (st == "bad"), (bad or st)
+    if kind == "purity":
+        raw = bytes.fromhex(case["payload"]) if "payload" in case else int(case["z"])
+        st, bad = check_purity(e.serializer, raw, bool(case["pod"]), key=e.key, ctxvars=case.get("ctx") or {}, full=True)
         return (st == "bad"), (bad or st)
     if kind == "int-model":
         # a model/implementation disagreement on an integer case: report what the implementation does
@@ -963,6 +1107,10 @@ def search_ints(ctx, reg):
                 if bad:
                     return {"kind": "int-block", "class": "block-cache", "clause": bad[0], "got": bad[1], "key": ".".join(e.key),
                             "ctx": ctxvars, "pod": False, "z": zs[i], "z_before": zs[(i * 7 + 3) % len(zs)]}
+                for pod in (False, True):
+                    st, bad = check_purity(e.serializer, zs[i], pod, key=e.key, ctxvars=ctxvars)
+                    if st == "bad":
+                        return purity_case(bad, ".".join(e.key), ctxvars, pod, zs[i])
     return None
 
 
